@@ -18,7 +18,27 @@ extern "C"
     void c03_c_move_tail(struct ring_head *r, unsigned n);
     int c03_c_fixup_index(struct ring_head *r, int index);
     int c03_c_walk(struct ring_head *r, const char *buf, unsigned char *out, int max);
+    int c03_c_walk_stmt(struct ring_head *r, const char *buf, int cond, int stop_at, int skip_at, unsigned char *out, int max, int *else_ran);
 #ifdef __cplusplus
 }
 #endif
+/* ring_for_each as a statement: the single unbraced statement of an if / else, left with break at the stop_at-th element,
+   the skip_at-th element skipped with continue. Defined static inline here so that the C and the C++ translation unit both
+   expand the macro (the C unit exports it as c03_c_walk_stmt). */
+static inline int c03_walk_stmt_inline(struct ring_head *r, const char *buf, int cond, int stop_at, int skip_at, unsigned char *out, int max, int *else_ran)
+{
+    int n = 0, k = -1;
+    *else_ran = 0;
+    if (cond)
+        ring_for_each(idx, r)
+        {
+            k++;
+            if (k == skip_at) continue;
+            if (n < max) out[n++] = (unsigned char)buf[idx];
+            if (k == stop_at) break;
+        }
+    else
+        *else_ran = 1;
+    return n;
+}
 #endif
